@@ -705,22 +705,22 @@ def obligations(tier):
         Symx("roundtrip-record", lambda X: h_rt_record(X, 3 if q else 6),
              bounds=f"1 question + 1 record in any section; owner/question/rdata names from a 4-name menu (root, 'a', IDN, 63-octet label); record kind from {KINDS}; "
                     f"type (opaque kind)/class/ttl symbolic 16/16/32 bit; opaque/TXT/HINFO rdata = 0..{3 if q else 6} fully symbolic octets; MX preference, SRV port, SOA serial (upper 16 bits) symbolic; class/ttl/question type+class/id symbolic for the opaque and CNAME kinds",
-             encoded=ENCODED, must_reach=["built"] + [f"kind:{k}" for k in KINDS], stubs=STUBS, parallel_depth=3, budget_s=400 if q else 3600),
+             encoded=ENCODED, must_reach=["built"] + [f"kind:{k}" for k in KINDS], stubs=STUBS, parallel_depth=3, budget_s=400 if q else 1200),
         Symx("roundtrip-all-types", lambda X: h_rt_alltypes(X, 3 if q else 4),
              bounds=f"one answer record, TYPE any 16-bit value not name-bearing per RFC 1035/3597, {3 if q else 4} fully symbolic rdata octets",
              encoded=ENCODED, must_reach=["decoded"], stubs=STUBS, parallel_depth=2),
         Symx("roundtrip-structure", lambda X: h_rt_structure(X, 2 if q else 3),
              bounds=f"0..{2 if q else 3} entries in each of the 4 sections (all count combinations), type/class/ttl/1 rdata octet symbolic per record",
-             encoded=ENCODED, must_reach=["built", "all-sections-full"], stubs=STUBS, parallel_depth=3, budget_s=400 if q else 3600),
+             encoded=ENCODED, must_reach=["built", "all-sections-full"], stubs=STUBS, parallel_depth=3, budget_s=400 if q else 1200),
         Symx("bad-names-rejected", h_bad_names, bounds=f"names {BAD_NAMES} in question / owner position", encoded=ENCODED[:1] + ENCODED[3:4], must_reach=["rejected"]),
         Symx("total-short-buffers", lambda X: h_total_short(X, 3 if q else 5),
              bounds=f"every buffer of 12+{3 if q else 5} octets: all body octets symbolic, the four counts each in 0..2 (all 81 combinations), id from a 4-entry menu (as pointer target: root, self-loop, '.', pointer to body), flags 0x0100; "
                     "all 14-bit pointer targets incl. self/forward/into the header",
-             encoded=ENCODED, must_reach=["parse-error"], stubs=STUBS, parallel_depth=4, budget_s=400 if q else 3600),
+             encoded=ENCODED, must_reach=["parse-error"], stubs=STUBS, parallel_depth=4, budget_s=400 if q else 1200),
         Symx("total-record-buffers", lambda X: h_total_record(X, 3 if q else 5, RTYPES_QUICK if q else RTYPES_THOROUGH),
              bounds=f"header + question with one symbolic label octet + one record slot in any section: owner root / pointer, type in {RTYPES_QUICK if q else RTYPES_THOROUGH}, "
                     f"rdlength symbolic 16 bit, {3 if q else 5} fully symbolic rdata octets (all pointer targets)",
-             encoded=ENCODED, must_reach=["parse-error", "decoded", "record-decoded", "re-decoded"], stubs=STUBS, parallel_depth=4, budget_s=400 if q else 3600),
+             encoded=ENCODED, must_reach=["parse-error", "decoded", "record-decoded", "re-decoded"], stubs=STUBS, parallel_depth=4, budget_s=400 if q else 1200),
         Symx("decode-label-menu", h_label_menu, bounds=f"question name of 1-2 labels from a {len(LABEL_MENU)}-label menu covering the idna codec classes (ACE valid/invalid, dots, non-ASCII, 63 octets) "
              "x {no record, CNAME/TXT rdata pointing at it, owner pointing at it}; concrete octets, real codec",
              encoded=ENCODED, must_reach=["label-decoded", "parse-error"], parallel_depth=2),
@@ -728,7 +728,7 @@ def obligations(tier):
              must_reach=["chain-decoded"]),
         Symx("decompressor-kernel", lambda X: h_kernel(X, 7 if q else 9),
              bounds=f"unpack_from_with_compression on every buffer of {7 if q else 9} symbolic octets from every start offset, fresh cache",
-             encoded=ENCODED[6:8], must_reach=["name", "error", "loop-detected"], stubs=STUBS, parallel_depth=3, budget_s=400 if q else 3600),
+             encoded=ENCODED[6:8], must_reach=["name", "error", "loop-detected"], stubs=STUBS, parallel_depth=3, budget_s=400 if q else 1200),
         Symx("decompressor-loops", lambda X: h_kernel_loop(X, 4 if q else 8),
              bounds=f"pointer cycles of length 1..{4 if q else 8}, 0..2 symbolic 1-octet labels before the first pointer, pointer high octets symbolic",
              encoded=ENCODED[6:8], must_reach=["loop-detected"], stubs=STUBS),
@@ -736,5 +736,5 @@ def obligations(tier):
              bounds=f"priority in [-40000,70000] symbolic; target from the 4-name menu; 0..2 params, keys from {{0,1,3,5,255,65535}}, values 0..{2 if q else 3} symbolic octets",
              encoded=ENCODED_HTTPS, must_reach=["packed", "rejected"], stubs=STUBS, parallel_depth=3),
         Symx("https-total", lambda X: h_https_total(X, 3 if q else 5, with_params=not q), bounds="https_records.unpack on every buffer of 0..3 (thorough 0..5) symbolic octets, and (thorough only) on priority(symbolic)+root target+1..2 params with menu keys, symbolic length octets and 0..2 symbolic value octets",
-             encoded=ENCODED_HTTPS + ENCODED[5:6], must_reach=["parse-error", "decoded"], stubs=STUBS, parallel_depth=3, budget_s=400 if q else 3600),
+             encoded=ENCODED_HTTPS + ENCODED[5:6], must_reach=["parse-error", "decoded"], stubs=STUBS, parallel_depth=3, budget_s=400 if q else 1200),
     ]
